@@ -26,7 +26,7 @@ BUDGET = {
     "quick": {"cases": 7200, "seconds": 90, "shards": 8},
     "thorough": {"cases": 120000, "seconds": 900, "shards": 16},
 }
-REQUIRED_OBS = ["exhaustive_small_graph_cases", "queries_judged:knn", "queries_judged:unsup", "tie_at_kth", "query_is_training_copy", "density_between_costs", "k>=2_queries",
+REQUIRED_OBS = ["model_loaded_into_used_object", "exhaustive_small_graph_cases", "queries_judged:knn", "queries_judged:unsup", "tie_at_kth", "query_is_training_copy", "density_between_costs", "k>=2_queries",
                 "multiple_admissible", "pre_computed_cases", "asymmetric_metric_cases"]
 MIN_NONTRIVIAL = 100
 
@@ -35,6 +35,7 @@ def generate(rng, tier, idx):
     metrics = gen.SAFE_METRICS if idx % 3 else knncase.NONNEG_METRICS        # incl. asymmetric neyman / pearson / KL / K-divergence
     c = knncase.gen_knn_case(rng, tier, model=("knn" if idx % 2 else "unsup"), metrics=metrics, allow_pre=True)
     c["propagate"] = bool(rng.random() < 0.5)
+    c["via_load"] = bool(rng.random() < 0.08)
     return c
 
 
@@ -99,6 +100,28 @@ def check(case):
             return res.reject("library-domain-error")
         res.see("fit_aborted:" + type(call.exc).__name__)
         return res.reject("fit-aborted")
+    if case.get("via_load") and not case.get("pre"):
+        # the judged model arrives by load() into an object of the same kind that was fitted on other data and has predicted
+        import os
+        import shutil
+        import tempfile
+        from ..snap import build_model
+        tmp = tempfile.mkdtemp(prefix="c14_")
+        try:
+            safe_call(m.save, os.path.join(tmp, "b.pkl"))
+            other = dict(case)
+            other["X"] = (np.array(case["X"], dtype=float)[::-1] * 1.7 + 0.3).tolist()
+            other["Y"] = case["Y"][::-1]
+            other["refit"], other["kwcall"] = False, False
+            other.pop("int_features", None)
+            used, c0 = knncase.fit_model(other)
+            if c0.ok:
+                safe_call(used.predict, Q.copy())
+                if safe_call(used.load, os.path.join(tmp, "b.pkl")).ok:
+                    m = used
+                    res.see("model_loaded_into_used_object")
+        finally:
+            shutil.rmtree(tmp, ignore_errors=True)
     sg = m.subgraph
     vals = [float(nd.cost) for nd in sg.nodes] + [float(sg.constant), float(sg.min_density), float(sg.max_density)]
     if not all(math.isfinite(v) for v in vals) or sg.constant <= 0:
